@@ -31,6 +31,7 @@ var sqlCorpus = []string{
 	"select * from (select id from t where x like '%abc%' escape '\\\\') as sub where exists (select 1 from dual)",
 	"select /* comment */ a, -- line comment\n b from t # hash comment\n where c = 1",
 	"select /*!50000 SQL_NO_CACHE */ * from t",
+	"/* leading comment */ /* second */ select a from t /* trailing comment */",
 	"select 0x414243, x'4142', b'0101', 1e10, .5, -3, +4, ~5, !a, 'str''quoted', \"dq\", `bq` from `db`.`t`",
 	"select * from t where a = ? and b = :name and c = :v1 and d in ::list",
 	"select $1, $2::text, E'esc\\n', 'x' || 'y' from t where id = $3",
